@@ -248,7 +248,11 @@ class Counter(HashTable):
                The set of integers to count
         """
         t = time.time()
-        keys = np.asanyarray(keys, dtype=self._key_dtype)
+        keys = np.asanyarray(keys)
+        if keys.dtype != self._key_dtype:
+            # values the key type cannot hold are not keys: drop them instead of letting the conversion wrap them onto keys
+            limits = np.iinfo(self._key_dtype)
+            keys = keys[(keys >= limits.min) & (keys <= limits.max)].astype(self._key_dtype)
         hashes = self._get_hash(keys)
         view = self._keys._shape.view(hashes)
         mask = np.flatnonzero(view.lengths)
